@@ -228,6 +228,9 @@ func shapeCrowd(iter int) {
 	}
 	w1, w2 := make(chan int), make(chan int)
 	s1, s2 := f.Subscribe(w1), f.Subscribe(w2)
+	if iter%2 == 1 { // both role assignments: which of the two ends up first in the Send's working list is an internal matter
+		w1, w2, s1, s2 = w2, w1, s2, s1
+	}
 	done := make(chan int, 1)
 	go func() { done <- f.Send(7) }()
 	for _, c := range chs { // wait until the crowd has been served (the Send is then blocked on w1, w2)
@@ -329,7 +332,7 @@ func TestRaceFree(t *testing.T) {
 		}
 	}
 	wg.Wait()
-	crowds := 3
+	crowds := 4
 	if os.Getenv("VERIF_TIER") == "thorough" {
 		crowds = 40
 	}
